@@ -13,10 +13,11 @@ import Driver.Notch
 import Driver.Mesh
 import Driver.FailureProb
 import Driver.WoehlerAnalysis
+import Driver.Assessment
 open PylifeVerif.Driver
 
 /-- All handlers; the first that recognises the op answers. -/
-def handlers : List (List String → Option String) := [handleRainflow, handleHCM, handleFkmNonlinear, handleWoehler, handleCollective, handleEquistress, handleMiner, handleMaterialLaws, handleBroadcast, handleMeanstress, handleVmap, handleNotch, handleMesh, handleFailureProb, handleWoehlerAnalysis]
+def handlers : List (List String → Option String) := [handleRainflow, handleHCM, handleFkmNonlinear, handleWoehler, handleCollective, handleEquistress, handleMiner, handleMaterialLaws, handleBroadcast, handleMeanstress, handleVmap, handleNotch, handleMesh, handleFailureProb, handleWoehlerAnalysis, handleAssessment]
 
 def answer (line : String) : String :=
   let toks := (line.splitOn " ").filter (· ≠ "")
